@@ -189,6 +189,62 @@ def h_anm(ctx):
                       call='anm', info=dict(pattern=[list(r) for r in pat], interventions=descr, n=n))
 
 
+def h_anm_wide(ctx):
+    """many variables: one child with two parents at arbitrary (symbolic) positions, different weights;
+    ANM (linear assignment over the parent columns it receives) vs the LGANM population law"""
+    e = ctx.eng
+    lg = ctx.mod('sempler.lganm')
+    am = ctx.mod('sempler.anm')
+    nz = ctx.mod('sempler.noise')
+    p, n = ctx.params['p'], 1
+    a, b, c = e.int('pa1'), e.int('pa2'), e.int('child')
+    for v in (a, b, c):
+        e.assume(v >= 0)
+        e.assume(v < p)
+    e.assume(a < b)
+    e.assume(c != a)
+    e.assume(c != b)
+    ai, bi, ci = int(a), int(b), int(c)
+    w1, w2 = e.real('w1'), e.real('w2')
+    e.assume(w1 != 0)
+    e.assume(w2 != 0)
+    rows = [[0.0] * p for _ in range(p)]
+    rows[ai][ci] = w1
+    rows[bi][ci] = w2
+    means = [e.real('mean_%d' % i) if i in (ai, bi, ci) else 0.0 for i in range(p)]
+    variances = [e.real('var_%d' % i) if i in (ai, bi, ci) else 1.0 for i in range(p)]
+    for i in (ai, bi, ci):
+        e.assume(variances[i] > 0)
+    seed = e.int('seed')
+    e.assume(seed >= 0)
+    e.assume(seed < 2 ** 32)
+    cl = []
+    try:
+        model = lg.LGANM(np.array(rows, dtype=float), np.array(means, dtype=float), np.array(variances, dtype=float))
+        dist = model.sample(population=True)
+        wv = np.array([w1, w2], dtype=float)
+        assignments = [None] * p
+        assignments[ci] = lambda X: X @ wv          # weights in increasing parent index order
+        noises = [nz.normal(means[i], variances[i]) for i in range(p)]
+        anm = am.ANM(np.array(rows, dtype=float), assignments, noises)
+        k0 = len(np.random.LOG)
+        X = anm.sample(n, random_state=seed)
+        outcome = 'returned'
+        ok = isinstance(X, np.ndarray) and X.shape == (n, p)
+        cl.append(('the sample is an n x p array', ok))
+        if ok:
+            draws = [r for r in np.random.LOG[k0:] if r['op'] == 'normal']
+            zrows = [[r['z'][t] for r in draws] for t in range(n)]
+            mean = [dist.mean[i] for i in range(p)]
+            cov = [[dist.covariance[i, j] for j in range(p)] for i in range(p)]
+            _law_clauses(cl, X, n, p, zrows, mean, cov, 'wide ANM vs LGANM law')
+    except Exception as ex:
+        outcome = 'raised ' + type(ex).__name__
+        cl.append(('sampling must not raise (%s: %s)' % (type(ex).__name__, str(ex)[:80]), False))
+    return PathResult(outcome, cl, inputs=dict(kind='anm', W=rows, means=means, variances=variances, do={}, noise={}, shift={}, n=n, seed=seed),
+                      call='anm', info=dict(p=p, parents=[ai, bi], child=ci))
+
+
 # ---- replay: statistical confirmation on the real library (z-scores at 7 sigma), exact population law as reference --------
 
 def _exact_pop(inp):
@@ -305,4 +361,7 @@ def obligations(tier):
                          "LGANM.sample(n) vs population law, 3 variables, at most %d intervened" % mt, expect=('returned',), weight=60, timeout_ms=120000))
     ob.append(Obligation('anm_p3', h_anm, [dict(c, n=n, max_targets=mt) for c in I.dag_pair_cubes(3, 3) for n in ((1,) if q else (1, 2))],
                          "ANM vs LGANM law, 3 variables, at most %d intervened" % mt, expect=('returned',), weight=60, timeout_ms=120000))
+    pw = 10 if q else 12
+    ob.append(Obligation('anm_wide_p%d' % pw, h_anm_wide, [dict(p=pw)], "%d variables, one child with two parents at arbitrary positions and different weights: ANM vs LGANM law" % pw,
+                         expect=('returned',), weight=50, timeout_ms=120000))
     return ob
